@@ -711,6 +711,13 @@ def cases_C03(ctx):
             tok, ex = lab_tok(label)
             exp = expected_attr_str(ctx.b.expected(2 if label == 2 else 1))
             klass = "%s:%s:%s:%s" % (e["key"], r["modes"][0], r["modes"][1], r["modes"][2] if tn == "msm" else "-")
+            # the fields of a message are the ones the standard gives it: a definition whose layout for these
+            # repeat counts has another size than the pinned standard formula puts some field's bits elsewhere
+            want = pinned.size_bits(e["key"], ctx.b.vals, r["occs"])
+            if want is not None and want != r["nbits"]:
+                cs.append(case("msg %s %s" % (tok, hx(r["payload"])), klass + ":size",
+                               ("equals", {"expected": "message %s with these repeat counts occupies %d bits in the standard, "
+                                           "the definition lays out %d: fields are not where the standard puts them" % (e["key"], want, r["nbits"])}), ex))
             cs.append(case("msg %s %s" % (tok, hx(r["payload"])), klass,
                            ("attrs_expected", {"expected": exp, "ident": e["key"]}), ex))
             # spec side: the Lean layout walk fed with the raw values packs to the same bytes and
